@@ -62,8 +62,8 @@ PROPS = {
                    "what each command line means (unit parser: C01.parse-*); the dispatcher arms are verified in two halves that R10 / R10b cut apart and that only the extraction rule "
                    "joins again: guard usage with the closure abstracted (unit dispatch) and the closure body - kept in place for the reading arms (unit replies), lifted to a function "
                    "for set / remove / increment (unit consensus: op_set, op_remove, op_increment)",
-                   "`keys`: String's ordering (the meaning of 'sorted') is an uninterpreted total order; the Keys arm of the dispatcher (which list_system_keys flag it passes) is "
-                   "covered by the bounded sweep only"],
+                   "`keys`: String's ordering (the meaning of 'sorted') is an uninterpreted total order (the Keys arm itself - which list_system_keys flag it passes, how the "
+                   "names are joined - is verified in unit replies)"],
         assumptions=["Display for Value prints its value field (trusted axiom; impl at bo.rs is compiled but not verified)",
                      "i32 <-> text conversions are uninterpreted with parse(print(n)) == Some(n)",
                      "unit listing: `map.iter().filter(F).map(G).collect()` is replaced by a trusted shim (R11: every entry visited exactly once, F's and G's own contracts decide "
